@@ -9,6 +9,7 @@ import NV.C07.WF
 import NV.C07.Lemmas
 import NV.C07.LemmasFind
 import NV.C07.LemmasBuild
+import NV.C07.LemmasBuild2
 
 namespace NV.C07
 
@@ -235,6 +236,29 @@ theorem built_alias_flags_agree (slots : List BSlot) (hord : aliasOrdered slots 
     ∃ b wh, (epilogSlots slots)[j]? = some b ∧ (epilogSlots slots)[a.aliasFor]? = some wh ∧
       b.flags = wh.flags ||| nameAlias :=
   epilogSlots_alias slots hord j a ha hal
+
+/-- **built_aliasOrdered / built_flags_agree** — for EVERY source file (any items whose modifiers do not contain the
+    internal NAME_ALIAS bit) and every world of inherited programs, the table produced by the construction model has
+    this property: each runtime slot created as an alias carries exactly the flags of the slot it aliases (the
+    identifier's slot), plus NAME_ALIAS.  No evaluated hypothesis is left: the invariant "identifiers point to existing
+    non-alias slots; an alias names an earlier slot" is carried through copy_function, overload_function (alias entry /
+    latest wins / count), define_new_function, copy_functions and the items of the file (`ainv_*` in LemmasBuild2),
+    then the epilog theorem applies. -/
+theorem built_flags_agree (w : World) (name : String) (id : Nat) (items : List Item)
+    (hm : ∀ it ∈ items, it.modsOK) (j : Nat) (a : BSlot)
+    (ha : (items.foldl (doItem w) {}).slots[j]? = some a) (hal : hasBit a.flags nameAlias = true) :
+    ∃ fj fw, (buildProgram w name id items).flags[j]? = some fj ∧
+      (buildProgram w name id items).flags[a.aliasFor]? = some fw ∧ fj = fw ||| nameAlias := by
+  obtain ⟨b, wh, hb, hw, hf⟩ := epilogSlots_alias _ (built_aliasOrdered w items hm) j a ha hal
+  refine ⟨b.flags, wh.flags, ?_, ?_, hf⟩
+  · simp [buildProgram, finish, hb]
+  · simp [buildProgram, finish, hw]
+
+/-- **built_inherits_in_world** (stated in LemmasBuild2; clause `inherit.prog < p` of `wfFind` / `wfSlots`, for all
+    inputs): every inherit entry of a built program names a program of the world it was compiled against. -/
+example (w : World) (name : String) (id : Nat) (items : List Item) :
+    ∀ ih ∈ (buildProgram w name id items).inherit, ih.prog < w.progs.length :=
+  built_inherits_in_world w name id items
 
 /-- the modifier bits of a flags word, as the specification's `Mods` -/
 def modsOf (fl : Nat) : Spec.Mods :=
